@@ -142,7 +142,7 @@ func genOne(c *hx.Ctx, class string) string {
 
 func gen(c *hx.Ctx) {
 	classes := []string{"basic", "order", "basic", "tie0", "many", "full", "order"}
-	N := c.Budget(12000, 80000)
+	N := c.Budget(12000, 150000)
 	for i := 0; i < N; i++ {
 		cl := classes[i%len(classes)]
 		c.Emit("%s", genOne(c, cl))
